@@ -32,6 +32,7 @@ structure DiagFacts (t cum new out : List Cell) (dates : List Date) : Prop where
   fin : finishRight t new = .ok out
   newOk : ∀ n ∈ new, n.datesOk = true
   cumPerm : Triangle.isIncremental t = false → out.Perm new
+  newEq : rightDiagonalCells cum dates false = .ok new
 
 theorem rightDiagonalCells_edges {cum new : List Cell} {dates : List Date} {hist : Bool}
     (h : rightDiagonalCells cum dates hist = .ok new) :
@@ -60,7 +61,7 @@ theorem rightDiag_facts {t out : List Cell} {dates : List Date}
       fun c hc => ⟨c, hperm.mem_iff.mp hc, rfl, rfl⟩, fun n hn => ⟨n, hperm.mem_iff.mpr hn, rfl, rfl⟩,
       rightDiagonalCells_edges hnew, (fun h' => by rw [hinc] at h'; cases h'),
       fun n hn => RightDiagCell.empty ((rightDiagonalCells_mem hnew n).mp hn), hfin,
-      rightDiagonalCells_datesOk hnew, fun _ => hperm⟩
+      rightDiagonalCells_datesOk hnew, fun _ => hperm, hnew⟩
   | true =>
     obtain ⟨cum, new, right, hcum, hni, hnew, hright, hperm, hfin⟩ := rightDiag_reduces hinc h
     have hiff := rightDiagonalCells_mem hnew
@@ -68,7 +69,7 @@ theorem rightDiag_facts {t out : List Cell} {dates : List Date}
       fun n hn => RightDiagCell.empty ((hiff n).mp hn)
     have hchain := finishRight_inc hinc hempty hfin
     refine ⟨cum, new, Or.inr ⟨hinc, hcum⟩, hiff, ?_, ?_, rightDiagonalCells_edges hnew, fun _ => hchain,
-      hempty, hfin, rightDiagonalCells_datesOk hnew, (fun h' => by rw [hinc] at h'; cases h')⟩
+      hempty, hfin, rightDiagonalCells_datesOk hnew, (fun h' => by rw [hinc] at h'; cases h'), hnew⟩
     · intro c hc
       obtain ⟨_, _, hch⟩ := hchain c hc
       rcases hch with ⟨_, _, _, _, _, _, _, ⟨n, hn, hk, he⟩, _⟩ | ⟨_, _, b, hb, _, hk, _, he, _⟩
